@@ -419,6 +419,8 @@ def shard(spec):
             run_braille(st, unit, fixed, harvested, seen_pre, deadline)
         elif unit["kind"] == "switch":
             run_switch(st, unit, seen_pre)
+        elif unit["kind"] == "styles":
+            run_styles(st, unit, fixed, seen_pre)
     return st.to_dict()
 
 
@@ -705,6 +707,131 @@ def run_fallback(st, unit, fixed, seen_pre):
 
 
 # ---------------------------------------------------------------------------------------------------------------------
+# style resolution: every (language or region) x (every style name, the default, a style nobody ships)
+# ---------------------------------------------------------------------------------------------------------------------
+UNSHIPPED_STYLE = "NoSuchSpeak"
+STYLE_PROBES = [1, 8, 9, 13, 15, 33, 36, 42, 48, 66]        # indexes into the fixed list: number, row, fractions, roots, scripts, big operator, matrix, |x|
+
+
+def style_names():
+    """every style name some language ships, the default (None = SpeechStyle never set) and a name nobody ships"""
+    names = []
+    for tag, _ in language_tags():
+        for sname in own_styles(tag):
+            if sname not in names:
+                names.append(sname)
+    return sorted(names) + [None, UNSHIPPED_STYLE]
+
+
+def default_style():
+    return configs.prefs_yaml().get("SpeechStyle", ("ClearSpeak", []))[0] or "ClearSpeak"
+
+
+def resolve_style(tag, style, rules=None):
+    """Independent re-implementation of the documented fallback for the speech style file of a language tag:
+    the requested style in the region, else in the language; else another style of the region, else another style of the language;
+    else English (requested style, else any).  Returns (set of acceptable files, tree) where tree = the tag's own directories."""
+    rules = rules or core.RULES
+    style = style or default_style()
+    tree = lang_dirs(tag, rules)
+    for d in tree:
+        p = os.path.join(d, style + "_Rules.yaml")
+        if os.path.isfile(p):
+            return {os.path.normpath(p)}, tree
+    for d in tree:
+        alts = [os.path.join(d, f) for f in sorted(os.listdir(d)) if f.endswith("_Rules.yaml")]
+        if alts:
+            return set(os.path.normpath(a) for a in alts), tree
+    en = os.path.join(rules, "Languages", "en")
+    p = os.path.join(en, style + "_Rules.yaml")
+    if os.path.isfile(p):
+        return {os.path.normpath(p)}, tree
+    return set(os.path.normpath(os.path.join(en, f)) for f in os.listdir(en) if f.endswith("_Rules.yaml")), tree
+
+
+def run_styles(st, unit, fixed, seen_pre):
+    """one language tag under every style name, set before and after the language: the style file that is loaded must be the one the documented
+    fallback names, every Speech rule that fires must come from the same directory tree as that file, and the getters must work"""
+    tag = unit["tag"]
+    probes = [fixed[i] for i in STYLE_PROBES if i < len(fixed)]
+    for style in style_names():
+        for order in ("language-first", "style-first"):
+            if style is None and order == "style-first":
+                continue
+            want, tree = resolve_style(tag, style)
+            sel = [("set_preference", "Language", tag)] + ([("set_preference", "SpeechStyle", style)] if style else [])
+            if order == "style-first":
+                sel.reverse()
+            ops = [("set_rules_dir", core.RULES), ("set_preference", "TTS", "None")] + sel + [("rule_hits",)]
+            n0 = len(ops)
+            for t in probes:
+                ops += case_ops(t.xml())
+            ops += [("loaded_files",), ("rule_hits",)]
+            cfg = {"lang": tag, "style": style, "verbosity": "Medium", "braille": "Nemeth", "order": order}
+            who = "lang=%s,style=%s%s" % (tag, style or "(default)", ",style set first" if order == "style-first" else "")
+            try:
+                with core.Driver("native") as d:
+                    res = d.batch(ops, timeout=120)
+            except (core.DriverDied, core.DriverTimeout):
+                st.inconclusive += 1
+                st.count("driver_died_in_style_phase")
+                continue
+            problems = []
+            for op, r in zip(ops[2:n0 - 1], res[2:n0 - 1]):
+                st.evaluations += 1
+                if r["r"] != "ok":
+                    problems.append(("set-preference-fails", "%s|%s" % (op[1], re.sub(r"(/[^ :]*)+/", "…/", error_root(r))), "%s -> %s" % (op, (r.get("e") or str(r.get("p")))[:300])))
+            st.count("style_resolutions")
+            st.add("style_resolutions", "%s x %s" % (tag, style or "(default)"))
+            if not problems:
+                for i, t in enumerate(probes):
+                    r = res[n0 + i * NOPS:n0 + (i + 1) * NOPS]
+                    for kind, key, detail in judge_case(t, r, "Nemeth", st):
+                        if kind.startswith(("speech", "overview")):
+                            problems.append((kind, key, "%s | %s" % (t.xml()[:200], detail)))
+                    if r[0]["r"] == "ok":
+                        st.nontrivial.add(core.h16("styles|%s|%s|%s|%d" % (tag, style, order, i)))
+                lf, hits = res[-2], res[-1]
+                if lf["r"] == "ok":
+                    st.count("loaded_files_checks")
+                    st.evaluations += 1
+                    sp = [t for t in lf["v"] if t["table"] == "Speech"]
+                    got = os.path.normpath(sp[0]["rule_files"][0]) if sp and sp[0].get("rule_files") else None
+                    if got is None:
+                        problems.append(("not-loaded", "Speech", "no speech rule file after the getters ran"))
+                    elif got not in want:
+                        inside = any(got.startswith(os.path.normpath(d) + os.sep) for d in tree)
+                        cls = "other-file-of-the-language" if inside else "outside-the-language"
+                        problems.append(("style-file", cls, "speech rules were loaded from %s; the documented fallback (region, language, other style of the language, English) names %s" % (
+                            rel(got), sorted(rel(w) for w in want))))
+                    else:
+                        st.add("style_files_resolved", "%s x %s -> %s" % (tag, style or "(default)", rel(got)))
+                    # the words: every Speech rule that fired must live in the directory tree of the file the fallback names
+                    if hits["r"] == "ok" and want:
+                        roots = set(os.path.dirname(w) for w in want)
+                        foreign = sorted(set(rel(k.split("|")[1]) for k in hits["v"] if k.startswith("Speech|") and
+                                             not any(os.path.normpath(k.split("|")[1]).startswith(r0 + os.sep) for r0 in roots)))
+                        st.evaluations += 1
+                        if foreign:
+                            problems.append(("foreign-speech-rules", "Speech", "speech rules fired from %s although the style file of this configuration lives in %s" % (foreign[:4], sorted(rel(r0) for r0 in roots))))
+                    for kind, key, detail in check_loaded({"lang": tag, "style": style or default_style(), "braille": "Nemeth"}, lf["v"]):
+                        if key.startswith("Speech:") and ("_Rules.yaml" in key or key.endswith("style-fallback")):
+                            continue          # the style file itself is judged above, with the full fallback chain
+                        problems.append((kind, key, detail))
+            for kind, key, detail in problems:
+                st.count("raw_" + kind)
+                sig_who = who if kind in ("style-file", "foreign-speech-rules", "set-preference-fails", "not-loaded") else cfg_sig({"lang": tag, "style": style or default_style()})
+                if kind in ("style-file", "foreign-speech-rules"):
+                    sig_who = "lang=%s,style=%s" % (tag, "own" if (style or default_style()) in own_styles(tag) else "not shipped by the language")
+                pre = (kind, key, sig_who)
+                if pre in seen_pre:
+                    continue
+                seen_pre.add(pre)
+                st.violations.append(core.violation(kind, "%s | %s | %s" % (kind, key, sig_who), {"styles": {"tag": tag}},
+                                                    "%s | %s" % (who, detail[:500])))
+
+
+# ---------------------------------------------------------------------------------------------------------------------
 # selecting a configuration by switching inside a live session
 # ---------------------------------------------------------------------------------------------------------------------
 SWITCH_GETTERS = ["speech", "overview", "braille", "nav:ZoomIn", "nav:ReadCurrent"]
@@ -988,6 +1115,10 @@ core.PREDICATES["c15_char_not_in_braille_tables"] = pred_char_not_in_braille_tab
 # replay
 # ---------------------------------------------------------------------------------------------------------------------
 def replay(w):
+    if w.get("styles"):
+        st = core.Stats()
+        run_styles(st, {"tag": w["styles"]["tag"]}, corpus.fixed_trees(), set())
+        return st.violations
     if w.get("switch"):
         out = []
         with core.Driver("native") as d:
@@ -1045,6 +1176,9 @@ def run(tier, seed):
             fallbacks.append((tag, "en"))
     for tag, base in fallbacks:
         units.append({"kind": "fallback", "tag": tag, "base": base})
+    style_tags = [tag for tag, _ in language_tags() if tag.split("-")[0] not in TEST_LANGUAGES]
+    for tag in style_tags:
+        units.append({"kind": "styles", "tag": tag})
     chains = switch_chains(seed, 16 if quick else 160, 5)
     for i, steps in enumerate(chains):
         units.append({"kind": "switch", "steps": steps, "seed": core.sub_seed(seed, PROP, "sw", i)})
@@ -1090,6 +1224,8 @@ def run(tier, seed):
         missing.append("configurations not run: %s" % not_run[:6])
     if set(braille_dirs()) - stats.sets.get("braille_codes_full_corpus", set()) - set(x[8:] for x in unselectable if x.startswith("braille:")):
         missing.append("braille codes not run: %s" % sorted(set(braille_dirs()) - stats.sets.get("braille_codes_full_corpus", set())))
+    if len(stats.sets.get("style_resolutions", ())) < len(style_tags) * len(style_names()):
+        missing.append("only %d of %d (language, style name) resolutions judged" % (len(stats.sets.get("style_resolutions", ())), len(style_tags) * len(style_names())))
     if stats.counters.get("switch_steps", 0) < 3 * len(chains):
         missing.append("only %d switch steps judged" % stats.counters.get("switch_steps", 0))
     if stats.counters.get("loaded_files_checks", 0) < len(cfgs) // 2:
